@@ -157,6 +157,9 @@ def standard(res, args, pid, prop_file, theorems, classes_note, partial=()):
     from lib import drvgen
     if pid in drvgen.SRC_THEOREMS:
         drvgen.src_obligations(res, pid)
+    from lib import apigen
+    if pid in apigen.API_THEOREMS:
+        apigen.api_obligations(res, pid)
     common.build_ocaml()
     if args.replay:
         rp = json.load(open(args.replay))
